@@ -411,113 +411,125 @@ def applyMove (s : St) (m : Move) : St :=
 
 def popMode (ms : List Mode) : List Mode := ms.drop 1
 
+/-- What one call of `get_next_token` decides, before it is applied to the cursor:
+the token, the cursor move, the new mode stack, and (for leading whitespace) the new indent. -/
+structure Decision where
+  tok : Token
+  move : Move
+  modes : List Mode
+  setIndent : Option Nat := none
+  /-- produced by `consume_format_options` (used to state which tokens F-C09-1 concerns) -/
+  fromFormat : Bool := false
+  deriving Repr, Inhabited
+
+/-- the `_ => match next_char` arm (no string mode, or inside a template expression) -/
+def decideDefault (p : Pos) (prevTok : Option Token) (modes : List Mode) (c : Ch) (rest : List Ch) : Decision :=
+  let cs := c :: rest
+  let mode := modes.head?
+  if isWhitespace c.cp then
+    let count := countWhile isWhitespace cs
+    { tok := .whitespace, move := advLine p count, modes := modes,
+      setIndent := if prevTok == some .newLine || prevTok == none then some count else none }
+  else if c.cp = cpCR || c.cp = cpNL then
+    let r := consumeNewline p cs
+    { tok := r.1, move := r.2, modes := modes }
+  else if c.cp = cpHash then
+    let r := consumeComment p cs
+    { tok := r.1, move := r.2, modes := modes }
+  else if c.cp = cpDQ then
+    { tok := .stringStartNormal .dq, move := advLine p 1, modes := .literal .dq :: modes }
+  else if c.cp = cpSQ then
+    { tok := .stringStartNormal .sq, move := advLine p 1, modes := .literal .sq :: modes }
+  else if isAsciiDigit c.cp then
+    { tok := .number, move := advLine p (numberBytes cs), modes := modes }
+  else if c.idStart then
+    match consumeIdOrKeyword p prevTok cs with
+    | .tok t m => { tok := t, move := m, modes := modes }
+    | .raw q h m => { tok := .stringStartRaw q h, move := m, modes := .rawStart q h :: modes }
+  else if c.cp = cpUnderscore then
+    let r := consumeIgnored p cs
+    { tok := r.1, move := r.2, modes := modes }
+  else
+    match lookupSymbol cs symbolTable with
+    | none => { tok := .error, move := advLine p 1, modes := modes }
+    | some (n, sy) =>
+      let modes' :=
+        if sy = .CurlyOpen ∧ mode = some .templateExpr then .templateInlineMap :: modes
+        else if sy = .Colon ∧ mode = some .templateExpr then .templateFormat :: modes
+        else if sy = .CurlyClose ∧ (mode = some .templateExpr ∨ mode = some .templateInlineMap) then
+          popMode modes
+        else modes
+      { tok := .sym sy, move := advLine p n, modes := modes' }
+
+/-- `get_next_token`'s dispatch on the string mode and the next character -/
+def decideTok (p : Pos) (prevTok : Option Token) (modes : List Mode) (c : Ch) (rest : List Ch) : Decision :=
+  let cs := c :: rest
+  match modes.head? with
+  | some (.literal q) =>
+    if isQuote q c.cp then { tok := .stringEnd, move := advLine p 1, modes := popMode modes }
+    else if c.cp = cpLBrace then { tok := .sym .CurlyOpen, move := advLine p 1, modes := .templateExpr :: modes }
+    else
+      let r := stringLiteralLoop q cs 0 p
+      { tok := r.1, move := r.2, modes := modes }
+  | some (.rawStart q h) =>
+    match rawContentsLoop q h cs 0 p with
+    | none => { tok := .error, move := .stay, modes := modes }
+    | some (bytes, pos) => { tok := .stringLiteral, move := .adv bytes pos, modes := .rawEnd q h :: popMode modes }
+  | some (.rawEnd _ h) => { tok := .stringEnd, move := advLine p (1 + h), modes := popMode modes }
+  | some .templateFormat =>
+    let r := consumeFormatOptions p cs
+    -- the mode is popped only on success (after `advance_line`)
+    { tok := r.1, move := r.2, modes := if r.1 = .stringLiteral then popMode modes else modes, fromFormat := true }
+  | _ => decideDefault p prevTok modes c rest
+
+/-- indent reset after a newline (start of `get_next_token`) -/
+def resetIndent (s : St) : St :=
+  if s.prevTok = some .newLine then { s with indent := 0 } else s
+
+def applyDecision (s : St) (d : Decision) : St :=
+  let s' := applyMove s d.move
+  { s' with modes := d.modes, indent := d.setIndent.getD s'.indent, prevTok := some d.tok }
+
+/-- One call of `get_next_token` together with its decision record. `none` = end of stream. -/
+def stepD (src : List Ch) (s : St) : Option (Decision × St) :=
+  match dropBytes s.cur src with
+  | some (c :: rest) =>
+    let s0 := resetIndent s
+    let d := decideTok s0.span.stop s0.prevTok s0.modes c rest
+    some (d, applyDecision s0 d)
+  | _ => none
+
 /-- One call of `get_next_token`. `none` = end of stream. -/
 def step (src : List Ch) (s : St) : Option (Token × St) :=
-  match dropBytes s.cur src with
-  | none => none
-  | some [] => none
-  | some (c :: rest) =>
-    let cs := c :: rest
-    let s := if s.prevTok == some .newLine then { s with indent := 0 } else s
-    let p := s.span.stop
-    let mode := s.modes.head?
-    let fin := fun (t : Token) (s : St) => some (t, { s with prevTok := some t })
-    let default : Option (Token × St) :=
-      if isWhitespace c.cp then
-        let count := countWhile isWhitespace cs
-        let s' := applyMove s (advLine p count)
-        let s' := if s.prevTok == some .newLine || s.prevTok == none then { s' with indent := count } else s'
-        fin .whitespace s'
-      else if c.cp = cpCR || c.cp = cpNL then
-        let (t, m) := consumeNewline p cs
-        fin t (applyMove s m)
-      else if c.cp = cpHash then
-        let (t, m) := consumeComment p cs
-        fin t (applyMove s m)
-      else if c.cp = cpDQ then
-        let s' := applyMove s (advLine p 1)
-        fin (.stringStartNormal .dq) { s' with modes := .literal .dq :: s'.modes }
-      else if c.cp = cpSQ then
-        let s' := applyMove s (advLine p 1)
-        fin (.stringStartNormal .sq) { s' with modes := .literal .sq :: s'.modes }
-      else if isAsciiDigit c.cp then
-        fin .number (applyMove s (advLine p (numberBytes cs)))
-      else if c.idStart then
-        match consumeIdOrKeyword p s.prevTok cs with
-        | .tok t m => fin t (applyMove s m)
-        | .raw q h m =>
-          let s' := applyMove s m
-          fin (.stringStartRaw q h) { s' with modes := .rawStart q h :: s'.modes }
-      else if c.cp = cpUnderscore then
-        let (t, m) := consumeIgnored p cs
-        fin t (applyMove s m)
-      else
-        let (t, s') : Token × St :=
-          match lookupSymbol cs symbolTable with
-          | some (n, sy) => (.sym sy, applyMove s (advLine p n))
-          | none => (.error, applyMove s (advLine p 1))
-        let modes' :=
-          if t == .sym .CurlyOpen && mode == some .templateExpr then .templateInlineMap :: s'.modes
-          else if t == .sym .Colon && mode == some .templateExpr then .templateFormat :: s'.modes
-          else if t == .sym .CurlyClose && (mode == some .templateExpr || mode == some .templateInlineMap) then
-            popMode s'.modes
-          else s'.modes
-        fin t { s' with modes := modes' }
-    match mode with
-    | some (.literal q) =>
-      if isQuote q c.cp then
-        let s' := applyMove s (advLine p 1)
-        fin .stringEnd { s' with modes := popMode s'.modes }
-      else if c.cp = cpLBrace then
-        let s' := applyMove s (advLine p 1)
-        fin (.sym .CurlyOpen) { s' with modes := .templateExpr :: s'.modes }
-      else
-        let (t, m) := stringLiteralLoop q cs 0 p
-        fin t (applyMove s m)
-    | some (.rawStart q h) =>
-      match rawContentsLoop q h cs 0 p with
-      | none => fin .error s
-      | some (bytes, pos) =>
-        let s' := applyMove s (.adv bytes pos)
-        fin .stringLiteral { s' with modes := .rawEnd q h :: popMode s'.modes }
-    | some (.rawEnd _ h) =>
-      let s' := applyMove s (advLine p (1 + h))
-      fin .stringEnd { s' with modes := popMode s'.modes }
-    | some .templateFormat =>
-      let (t, m) := consumeFormatOptions p cs
-      let s' := applyMove s m
-      -- the mode is popped only on success (after `advance_line`)
-      fin t (if t == .stringLiteral then { s' with modes := popMode s'.modes } else s')
-    | _ => default
+  (stepD src s).map (fun (d, s') => (d.tok, s'))
 
-/-- A lexed token as reported by `KotoLexer::next_token`. -/
+/-- A lexed token as reported by `KotoLexer::next_token` (`fromFormat` is model-only bookkeeping). -/
 structure Lexed where
   tok : Token
   startByte : Nat
   endByte : Nat
   span : Span
   indent : Nat
+  fromFormat : Bool := false
   deriving Repr, DecidableEq, Inhabited
 
-def lexedOf (t : Token) (s : St) : Lexed := ⟨t, s.prev, s.cur, s.span, s.indent⟩
+def lexedOf (d : Decision) (s : St) : Lexed := ⟨d.tok, s.prev, s.cur, s.span, s.indent, d.fromFormat⟩
 
 /-- Tokens up to and including the first `Error` token (the real iterator may go on returning
 `Error` forever without advancing; nothing after the first error is part of the property).
-`fuel` bounds the number of tokens; `lexAll` supplies enough fuel for any input (see
-`Props/C09.lean`: every non-error step either advances or shrinks/changes the mode stack in a way
-bounded by the remaining input). -/
+`fuel` bounds the number of tokens; `lexAll` supplies enough fuel for any input. -/
 def lexFuel (src : List Ch) : Nat → St → List Lexed
   | 0, _ => []
   | fuel + 1, s =>
-    match step src s with
+    match stepD src s with
     | none => []
-    | some (t, s') =>
-      let l := lexedOf t s'
-      if t == .error then [l] else l :: lexFuel src fuel s'
+    | some (d, s') =>
+      let l := lexedOf d s'
+      if d.tok = .error then [l] else l :: lexFuel src fuel s'
 
-/-- Every non-error token advances the cursor, except at most two zero-length `StringLiteral`
-tokens in a row (empty raw string contents, empty format spec), each of which changes the mode;
-`3 * bytes + 3` tokens therefore always suffice. -/
+/-- Every non-error token advances the cursor, except at most one zero-length `StringLiteral`
+token in a row (empty raw string contents, empty format spec), which changes the mode;
+`3 * bytes + 3` tokens therefore always suffice (`Props/C09.lean`, `lexAll_complete`). -/
 def lexAll (src : List Ch) : List Lexed := lexFuel src (3 * byteLen src + 3) {}
 
 end KotoVerif.Lexer
